@@ -119,11 +119,31 @@ def build(sc):
     return sim, cfg
 
 
+def _finish(sc, sim):
+    expect = {"all": False, "idle": False, "slack": 0, "dm": True, "free": False,
+              "bus": not (sc.get("drop") or sc.get("silence") or sc.get("hostile"))}
+    expect.update(sc.get("expect", {}))
+    if os.environ.get("VERIF_MONITOR_ONLY"):
+        expect["free"] = True            # developer switch: judge by the property monitors alone (no output prediction)
+    return {"cfg": sim.cfg0, "ev": sim.trace, "expect": expect, "meta": {"scenario": sc}}, sim
+
+
 def run(sc):
     """execute the scenario on the real code; returns the trace dict for validation"""
+    try:
+        with vt.watchdog():
+            return _run(sc)
+    except vt.Runaway as e:          # endless loop in a handler / events without bound: judged as a `hang` event
+        sim = vt.CUR[0]
+        sim.hang(e)
+        return _finish(sc, sim)
+
+
+def _run(sc):
     sim, cfg = build(sc)
     import copy
     cfg0 = copy.deepcopy(cfg)
+    sim.cfg0 = cfg0
     drops = set(sc.get("drop", []))
     sil = {s["node"]: s["from"] for s in sc.get("silence", [])}
 
@@ -176,6 +196,11 @@ def run(sc):
         stim.append((snd["start"], 4, ("start", dm_s, src_cb, snd)))
         if snd.get("stop") is not None:
             stim.append((snd["stop"], 4, ("stop", dm_s, src_cb, snd)))
+        for rs in snd.get("restart", []):       # start_send again on the same Dm1 object (possibly another cycle time), stop again
+            snd2 = dict(snd, cycle=rs.get("cycle", snd["cycle"]))
+            stim.append((rs["start"], 4, ("start", dm_s, src_cb, snd2)))
+            if rs.get("stop") is not None:
+                stim.append((rs["stop"], 4, ("stop", dm_s, src_cb, snd2)))
     for s in sc.get("psends", []):
         stim.append((s["t"], 2, s))
     for s in sc.get("timers", []):
@@ -246,10 +271,5 @@ def run(sc):
                 sim.inject(n, s["id"], s["data"], fd=s.get("fd", False))
     sim.run(sc.get("dur", 2_000_000))
     sim.log({"ev": "end", "node": sc["nodes"][0]["name"]})
-    expect = {"all": False, "idle": False, "slack": 0, "dm": True, "free": False,
-              "bus": not (sc.get("drop") or sc.get("silence") or sc.get("hostile"))}
-    expect.update(sc.get("expect", {}))
-    if os.environ.get("VERIF_MONITOR_ONLY"):
-        expect["free"] = True            # developer switch: judge by the property monitors alone (no output prediction)
     sim.peer_objs = peers
-    return {"cfg": cfg0, "ev": sim.trace, "expect": expect, "meta": {"scenario": sc}}, sim
+    return _finish(sc, sim)
